@@ -172,7 +172,7 @@ static void runSchedule(Case &c, Cfg cfg, const std::vector<Op> &ops) {
 
 void harness_case(Dec &d, Case &c) {
     // about a fifth of the cases (first choice byte >= 0xd0, long enough strings) drive the HTTP back-end; short replay strings keep their TCP meaning
-    if (d.left() >= 8 && d.p[d.i] >= 0xd0) { d.byte(); h13::httpSchedule(d, c); return; }
+    if (d.left() >= 8 && d.p[d.i] >= 0xd0) { bool two = d.p[d.i] >= 0xf4; d.byte(); if (two) h13::httpTwoServices(d, c); else h13::httpSchedule(d, c); return; }
     Cfg cfg; unsigned cm = d.pick(8); cfg.cacheSize = cm < 3 ? 1 + cm : (cm < 6 ? 1 + d.pick(8) : 1 + d.pick(64)); cfg.maxPerRound = d.pick(3) == 0 ? 1 : 1 + d.pick(20);
     static const unsigned tos[] = {10, 10, 0, 1, 3, 60}; cfg.sndTo = tos[d.pick(6)]; cfg.rcvTo = tos[d.pick(6)]; cfg.conTo = tos[d.pick(6)];
     unsigned n = d.pick(4) == 0 ? d.pick(300) : d.pick(40); std::vector<Op> ops;
